@@ -76,6 +76,7 @@ def quic_pair(sc, seed, sig, fails):
     conn = scen.quic_conn(c02.to_model(sc), seed)
     ends = cap.Ends(5, v6=bool(sc.get("v6")))
     pk = cap.stamp(scen.quic_packets(conn), {0: ends})
+    c02.restamp(pk, sc.get("ts"))
     plain = scen.run(pk, conn.keylog)
     meta = scen.run(pk, conn.keylog, ["-a"])
     try:
